@@ -483,6 +483,72 @@ action act appliesTo { principal: U, resource: U, context: { "": { o?: Long, "":
 	}
 }
 
+// (g) tag types: getTag / hasTag on one entity type and on unions of two, where the tag types
+// are scalars, records, entities and sets of entities (equal, different, missing): the
+// typechecker joins and compares these types.
+func tagTypeFamily() *core.Family {
+	const text = `
+entity A tags { level: Long };
+entity B tags { level: Long };
+entity B2 tags { level: String, extra?: Bool };
+entity C tags A;
+entity C2 tags A;
+entity D tags Set<A>;
+entity D2 tags Set<{ level: Long }>;
+entity E tags String;
+entity F;
+action act appliesTo { principal: [A, B, B2, C, C2, D, D2, E, F], resource: [A, B, B2, C, C2, D, D2, E, F], context: { flag: Bool } };
+`
+	tys := []types.EntityType{"A", "B", "B2", "C", "C2", "D", "D2", "E", "F"}
+	return &core.Family{
+		Name: "tag-type-unions",
+		Desc: fmt.Sprintf("%d x %d (principal type, resource type) pairs over entity types whose tags are records, entities, sets of entities, sets of records, strings or absent: getTag / hasTag on each variable and on the union `if c then principal else resource` (directly, and inside a record so that strict mode accepts the union), guarded and unguarded; Validator.Policy returns in both modes", len(tys), len(tys)),
+		N:    int64(len(tys) * len(tys)),
+		Run: func(t *core.T, i int64) {
+			var sc schema.Schema
+			if err := sc.UnmarshalCedar([]byte(text)); err != nil {
+				t.Fail("harness-schema", text, "parses", err.Error())
+				return
+			}
+			rs, err := sc.Resolve()
+			if err != nil {
+				t.Fail("harness-schema", text, "resolves", err.Error())
+				return
+			}
+			vs, vp := validate.New(rs, validate.WithStrict()), validate.New(rs, validate.WithPermissive())
+			pt, rt := tys[int(i)/len(tys)], tys[int(i)%len(tys)]
+			flag := xast.Context().Access("flag")
+			union := xast.IfThenElse(flag, xast.Principal(), xast.Resource())
+			viaRecord := xast.IfThenElse(flag, xast.Record(xast.Pairs{{Key: "e", Value: xast.Principal()}}), xast.Record(xast.Pairs{{Key: "e", Value: xast.Resource()}})).Access("e")
+			k := xast.String("k")
+			var conds []xast.Node
+			for _, x := range []xast.Node{xast.Principal(), xast.Resource(), union, viaRecord} {
+				conds = append(conds,
+					x.GetTag(k).Equal(xast.Long(1)),
+					x.HasTag(k),
+					x.HasTag(k).And(x.GetTag(k).Equal(x.GetTag(k))),
+					x.HasTag(k).And(x.GetTag(k).Access("level").Equal(xast.Long(1))),
+					x.HasTag(k).And(x.GetTag(k).Has("level")),
+					x.HasTag(k).And(xast.Principal().In(x.GetTag(k))),
+					x.HasTag(k).And(x.GetTag(k).Contains(xast.Principal())),
+					x.HasTag(k).And(x.GetTag(k).Like(types.NewPattern(types.Wildcard{}))),
+					x.GetTag(k).Equal(xast.Principal().GetTag(k)),
+				)
+			}
+			desc := fmt.Sprintf("principal is %s, resource is %s", pt, rt)
+			for ci, c := range conds {
+				pol := xast.Permit().PrincipalIs(pt).ResourceIs(rt).When(c)
+				d := fmt.Sprintf("%s, condition %d", desc, ci)
+				t.Protect("tag-types:Policy:strict", d, func() { _ = vs.Policy("p", pol) })
+				t.Protect("tag-types:Policy:permissive", d, func() { _ = vp.Policy("p", pol) })
+			}
+			t.AddStates(int64(2 * len(conds)))
+			t.Nontrivial()
+			t.Sample(desc)
+		},
+	}
+}
+
 // (c) action-group digraphs over 3 actions: 2^9
 func actionFamily() *core.Family {
 	return &core.Family{
@@ -665,7 +731,7 @@ func Check() *core.Check {
 			"a case is non-trivial if the schema resolved (so the validation battery ran)",
 		Assumptions: []string{"pairs of dimensions are not combined (one dimension at a time)", "a nil type inside a programmatically built schema AST is outside the domain (no decoder produces one)"},
 		Families: func(tier string) []*core.Family {
-			return []*core.Family{referenceFamily(), hierarchyFamily(), commonTypeFamily(), commonTypeNamespaceFamily(), commonTypeTwoRefFamily(tier), actionFamily(), typecheckerFamily(), degenerateNamesFamily()}
+			return []*core.Family{referenceFamily(), hierarchyFamily(), commonTypeFamily(), commonTypeNamespaceFamily(), commonTypeTwoRefFamily(tier), actionFamily(), typecheckerFamily(), degenerateNamesFamily(), tagTypeFamily()}
 		},
 	}
 }
